@@ -55,6 +55,9 @@ def run(ctx):
     cmds = []
     for proto in sysattr.PROTOS:
         cmds.append("EST " + proto)
+        cmds.append("BPC " + proto)
+    for proto in ("ux", "tcp", "tls"):
+        cmds.append("CTLFLOOD " + proto)
     for proto in ("tcp", "tls", "btcp", "btls", "utls"):
         cmds.append("MUTE " + proto)
         cmds.append("SYN " + proto)
@@ -62,7 +65,13 @@ def run(ctx):
     cmds.append("LNAME tcp localhost")
     if not quick:
         cmds.append("LNAME btcp verif-silent.test")
-    rc, out, err = sysattr.run(nexe, cmds, ctx, timeout=600)
+    import os, shutil, subprocess
+    ctld = os.path.join(sysattr.rundir(ctx), "ctl")
+    shutil.rmtree(ctld, ignore_errors=True)
+    os.makedirs(ctld)
+    e = dict(sysattr.env(ctx), XCM_CTL=ctld)
+    rc, o_, err = common.run_proc([nexe], "\n".join(cmds) + "\n", env=e, timeout=600)
+    out = o_.splitlines()
     ctx.traces += 1
     if rc != 0:
         ctx.violation("sys_nowait:crash:" + common.crash_site(err), "sys_nowait died", {"harness": "sys_nowait", "ops": cmds, "stderr": err[-3000:]})
